@@ -79,13 +79,16 @@ pub enum Seg {
     D(usize, usize),
     /// literal bytes
     L(Vec<u8>),
+    /// "echo": n bytes, each the byte `d` back, except that one byte in 16 (pseudo-randomly, salt `s`) is a fresh letter
+    /// from a 4-letter alphabet: rep matches at distance d interrupted by single literals, at every position
+    E(usize, usize, u64),
 }
 
 impl Seg {
     pub fn len(&self) -> usize {
         match self {
             Seg::Z(n) | Seg::R(n) | Seg::C(n) | Seg::X(n) => *n,
-            Seg::P(_, n) | Seg::D(_, n) => *n,
+            Seg::P(_, n) | Seg::D(_, n) | Seg::E(_, n, _) => *n,
             Seg::L(v) => v.len(),
         }
     }
@@ -108,6 +111,7 @@ pub fn shape_desc(segs: &[Seg]) -> String {
             Seg::X(n) => s.push_str(&format!("X{n}")),
             Seg::D(d, n) => s.push_str(&format!("D{d}x{n}")),
             Seg::L(v) => s.push_str(&format!("L{}", crate::report::hex(v))),
+            Seg::E(d, n, salt) => s.push_str(&format!("E{d}x{n}s{salt}")),
         }
     }
     if s.is_empty() {
@@ -228,6 +232,17 @@ pub fn build(segs: &[Seg], seed: u64) -> Vec<u8> {
                 }
             }
             Seg::L(v) => out.extend_from_slice(v),
+            Seg::E(d, n, salt) => {
+                let mut r = XorShift::new(salt.wrapping_mul(0x9E37_79B9_7F4A_7C15) | 1);
+                for _ in 0..*n {
+                    let x = r.next();
+                    // salts >= 1000 are deterministic: the fresh letter sits at every position = salt - 1000 (mod 16), so
+                    // that over the 16 phases every position of the stream follows a literal in exactly one of them
+                    let fresh = if *salt >= 1000 { out.len() % 16 == (*salt - 1000) as usize % 16 } else { (x >> 8) % 16 == 0 };
+                    let b = if out.len() < *d || *d == 0 || fresh { b'a' + ((x >> 20) % 4) as u8 } else { out[out.len() - d] };
+                    out.push(b);
+                }
+            }
         }
     }
     out
